@@ -126,7 +126,8 @@ Inductive expr :=
 | ERange (a : expr)
 | EField (a : expr) (cands : list (Z * nat))   (* obj.attr / getter call: (class, field index) per translated class *)
 | ENew (cls : Z) (args : list expr)
-| ECall (f : string) (args : list expr).   (* call of a translated function that mutates no parameter *)
+| ECall (f : string) (args : list expr)    (* call of a translated function that mutates no parameter *)
+| EIndexOf (a x : expr).                  (* a.index(x): first position equal to x, ValueError if absent *)
 
 Inductive lval := LVar (x : string) | LIdx (x : string) (i : expr).
 
@@ -144,7 +145,9 @@ Inductive stmt :=
 | SContinue
 | SRaise (k : Z)
 | SExpr (e : expr)
-| SCall (dst : option string) (f : string) (args : list expr) (wb : list (option lval)).
+| SCall (dst : option string) (f : string) (args : list expr) (wb : list (option lval))
+| SExtend (l : lval) (e : expr)            (* x.extend(e) *)
+| SOracle (x : string) (bound : Z).       (* x = np.random.randint(bound): next recorded draw, from the variable "$draws" *)
 
 Record fundef := mkfun { fparams : list string; flocals : list string; fbody : stmt }.
 
@@ -357,6 +360,17 @@ Section Interp.
           | None => Err E_Unsupported
           | Some g => bind (g vs) (fun r => Ok (fst r))
           end)
+    | EIndexOf a x =>
+        bind (eval a en) (fun av => bind (eval x en) (fun xv =>
+          match as_seq av with
+          | None => Err 5
+          | Some l =>
+              (fix go (l : list val) (i : Z) : res val :=
+                 match l with
+                 | [] => Err 1
+                 | y :: r => if py_eq y xv then Ok (VInt i) else go r (i + 1)
+                 end) l 0
+          end))
     end.
 
   Inductive outcome :=
@@ -379,6 +393,23 @@ Section Interp.
         bind (read_var x en) (fun a => bind (eval i en) (fun iv => bind (index_sem a iv) (fun b =>
           match b with
           | VList xs => bind (set_index a iv (VList (xs ++ [v]))) (fun a' => Ok (update x a' en))
+          | _ => Err 5
+          end)))
+    end.
+
+  (* x.extend(ys) *)
+  Definition extend_to (l : lval) (ys : list val) (en : env) : res env :=
+    match l with
+    | LVar x =>
+        bind (read_var x en) (fun a =>
+          match a with
+          | VList xs => Ok (update x (VList (xs ++ ys)) en)
+          | _ => Err 5
+          end)
+    | LIdx x i =>
+        bind (read_var x en) (fun a => bind (eval i en) (fun iv => bind (index_sem a iv) (fun b =>
+          match b with
+          | VList xs => bind (set_index a iv (VList (xs ++ ys))) (fun a' => Ok (update x a' en))
           | _ => Err 5
           end)))
     end.
@@ -495,6 +526,21 @@ Section Interp.
                     end
                 end
             end
+        end
+    | SExtend l e =>
+        match bind (eval e en) (fun v =>
+                match as_seq v with None => Err 4 | Some ys => extend_to l ys en end) with
+        | Ok en' => ONorm en'
+        | Err k => OErr k
+        end
+    | SOracle x bound =>
+        match read_var "$draws"%string en with
+        | Err k => OErr k
+        | Ok (VList []) => OErr E_Fuel            (* the recorded draw stream is exhausted *)
+        | Ok (VList (VInt d :: r)) =>
+            if (0 <=? d) && (d <? bound) then ONorm (update x (VInt d) (update "$draws"%string (VList r) en))
+            else OErr E_Unsupported              (* a draw outside numpy's contract *)
+        | Ok _ => OErr E_Unsupported
         end
     end.
 
